@@ -60,7 +60,7 @@ def cfg_text(scen, fam, prof, aggs):
     lines = ["SPECIFICATION Spec", "CONSTANTS",
              "  Slots = %s" % q(s["slots"]),
              "  DataIds = %s" % q(s["base"] + s["reports"]),
-             "  Cat <- CatAll", '  Fam = "%s"' % fam, "  Profs = %s" % q([prof]), "  Seeds = {1}",
+             "  Cat <- CatAll", '  Fam = "%s"' % fam, "  Profs = %s" % q([prof]), "  Seeds = %s" % ("{0, 1}" if scen == "warm" and fam == "hourly" else "{1}"),
              "  Template <- %s" % s["template"],
              "  IgnSet = {%s}" % ", ".join("TRUE" if x else "FALSE" for x in s["ign"]),
              "  AggSet = %s" % q(aggs)]
